@@ -297,7 +297,7 @@ def synthetic_zones(rng, tier):
     # last transition before 1970 but after 1570 with a DST rule (zic -b slim output for rules unchanged since the
     # 1960s): NOT the F9 family - the generated years run past 1970, every instant follows the rule
     mk("syn_pre1970", b"STD5DST,M4.5.0,M10.5.0", times=[t0, -116442000, -100116000], idx=[1, 2, 1])
-    mk("syn_pre1970b", b"STD5DST,M4.5.0,M10.5.0", times=[t0, -11644473600], idx=[1, 1])
+    mk("syn_pre1970b", b"STD5DST,M4.5.0,M10.5.0", times=[-11644473600], idx=[1])
     # one abbreviation stored twice (finding F14, fixed): types 1 and 3 differ only in abbr_index, so the
     # transitions between them change nothing and must not be reported; also a footer matching such a type
     mk("syn_dupabbr", b"STD5", times=[t0, 100000000, 110000000, 120000000], idx=[1, 3, 1, 3],
